@@ -94,7 +94,9 @@ class Core(object):
                     feature.name = k
                 eTypeParameters_add(feature)
             elif inspect.isfunction(feature):
-                if k.startswith('__'):
+                # private methods are stored under their mangled name
+                # ('_Cls__name'): look at the function's own name as well
+                if k.startswith('__') or feature.__name__.startswith('__'):
                     continue
                 argspect = inspect.getfullargspec(feature)
                 args = argspect.args
